@@ -257,8 +257,16 @@ class RunningFailureMonitor(Monitor):
                 # entering ELECTION (e.g. a new instance has been admitted) aborts every job, those of the failure
                 # handler included
                 mech = ''
-                if any(te >= t and n == nick and i == inc for te, n, i in self.elections):
-                    mech = ':election-after-the-loss-aborted-the-failure-handling'
+                for te, n, i in self.elections:
+                    if n != nick or i != inc or te < t:
+                        continue
+                    # either the ELECTION was decided in the very periodic task that acknowledged the loss (the
+                    # handler was never fed), or the handler had begun to act (a stop plan for the application) and the
+                    # ELECTION aborted the rest
+                    acted = [p for p in self.plans if p[1] == nick and p[2] == inc and t <= p[0] <= te and
+                             p[3] in ('stop_application', 'stop_process') and (p[4] == app or p[4].split(':')[0] == app)]
+                    if te - t < 1e-6 or acted:
+                        mech = ':election-after-the-loss-aborted-the-failure-handling'
                 if action == 'STOP_APPLICATION':
                     if not record['survivors'].get(app):
                         # nothing of the application is left running
